@@ -337,11 +337,11 @@ func (w *World) mutateProposal(n *Node, h int64, t time.Time, pv *cmttypes.Valid
 		m := clone()
 		fields := map[string]*[]byte{"fee-recipient": &m.Payload.FeeRecipient, "parent-hash": &m.Payload.ParentHash, "block-hash": &m.Payload.BlockHash,
 			"state-root": &m.Payload.StateRoot, "receipts-root": &m.Payload.ReceiptsRoot, "prev-randao": &m.Payload.PrevRandao, "beacon-root": &m.Payload.BeaconRoot}
-		name := pick(r, []string{"fee-recipient", "fee-recipient", "parent-hash", "block-hash", "block-hash", "state-root", "receipts-root", "prev-randao", "beacon-root"})
+		name := pick(r, []string{"fee-recipient", "fee-recipient", "parent-hash", "parent-hash", "block-hash", "block-hash", "state-root", "receipts-root", "prev-randao", "beacon-root"})
 		f := fields[name]
 		if len(*f) > 0 && (*f)[0] == 0 && r.Chance(0.5) {
 			*f = append([]byte{}, (*f)[1:]...) // a leading zero byte dropped
-		} else if r.Chance(0.35) {
+		} else if r.Chance(0.45) {
 			// shorter than canonical: the tail only, a single byte, or nothing at all
 			keep := pick(r, []int{0, 1, len(*f) / 2, len(*f) - 1})
 			if keep < 0 {
